@@ -725,7 +725,9 @@ class TrajectoryStore:
         # data schema, which we check for each new trajectory.
         if len(self._trajectories) > 0:
             proto = next(iter(self._trajectories.values()))
-            if hash(trajectory) != hash(proto):
+            # Compare the fields themselves: the hash of a trajectory depends
+            # on the order in which its field sets were added.
+            if trajectory._data_dictionary != proto._data_dictionary:
                 raise ValueError(
                     'All trajectories in a TrajectoryStore must have the same '
                     'data fields'
